@@ -6,6 +6,12 @@
     statement of a `try:` whose single handler is `except ValueError: pass` (CN_GUARDED = true).
 (3) mitmproxy/certs.py dummy_cert: the `critical=` argument of the SubjectAlternativeName extension is
     `not is_valid_commonname` (SAN_CRIT_BY_SUBJECT = false) or `not subject` (true).
+(4) the cache key of the SSL.Context that carries the presented chain: net/tls.py create_client_proxy_context must be
+    an lru_cache over keyword parameters including chain_file and dhparams and load the chain with
+    load_verify_locations(str(chain_file), None); TlsConfig.tls_start_client must pass chain_file=entry.chain_file and
+    dhparams=self.certstore.dhparams; CertStore.from_files must pass a `dh = cls.load_dhparam(dhparam_file)` to the
+    constructor; CertStore.load_dhparam decorated with staticmethod only (DH_SHARED = false: a new object per store
+    load) or additionally with functools.cache / lru_cache (DH_SHARED = true: one object per path).
 Fails closed on anything else."""
 import ast
 import os
@@ -67,6 +73,46 @@ def translate(repo: str) -> str:
     else:
         raise ValueError(f"unknown subjectAltName criticality expression(s): {crit}")
 
+    # (4) context cache key
+    store = [n for n in tree.body if isinstance(n, ast.ClassDef) and n.name == "CertStore"]
+    if len(store) != 1:
+        raise ValueError("class CertStore not found exactly once")
+    fns = {n.name: n for n in store[0].body if isinstance(n, ast.FunctionDef)}
+    if "load_dhparam" not in fns or "from_files" not in fns or "from_store" not in fns:
+        raise ValueError("CertStore.load_dhparam / from_files / from_store missing")
+    decos = [ast.unparse(d) for d in fns["load_dhparam"].decorator_list]
+    memo = [d for d in decos if d != "staticmethod"]
+    if "staticmethod" not in decos:
+        raise ValueError("load_dhparam is not a staticmethod")
+    if not memo:
+        dh_shared = False
+    elif len(memo) == 1 and (memo[0] in ("functools.cache", "cache", "functools.lru_cache", "lru_cache")
+                             or memo[0].startswith(("functools.lru_cache(", "lru_cache("))):
+        dh_shared = True
+    else:
+        raise ValueError(f"unknown decorators on load_dhparam: {decos}")
+    ff = ast.unparse(fns["from_files"])
+    if "dh = cls.load_dhparam(dhparam_file)" not in ff or "return cls(key, ca, chain_file, crl, dh)" not in ff \
+            or "chain_file: Path | None = ca_file" not in ff:
+        raise ValueError("CertStore.from_files changed (dhparams / chain_file wiring)")
+    if "return cls.from_files(ca_file, dhparam_file, passphrase)" not in ast.unparse(fns["from_store"]):
+        raise ValueError("CertStore.from_store changed")
+    if [ast.unparse(d) for d in fns["from_files"].decorator_list] != ["classmethod"] \
+            or [ast.unparse(d) for d in fns["from_store"].decorator_list] != ["classmethod"]:
+        raise ValueError("unexpected decorators on CertStore.from_files / from_store")
+    t3 = ast.parse(open(os.path.join(repo, "mitmproxy", "net", "tls.py")).read())
+    ccp = [n for n in t3.body if isinstance(n, ast.FunctionDef) and n.name == "create_client_proxy_context"]
+    if len(ccp) != 1:
+        raise ValueError("create_client_proxy_context not found exactly once")
+    cd = [ast.unparse(d) for d in ccp[0].decorator_list]
+    if len(cd) != 1 or not cd[0].startswith(("lru_cache(", "functools.lru_cache(")):
+        raise ValueError(f"create_client_proxy_context is not an lru_cache: {cd}")
+    kw = [a.arg for a in ccp[0].args.kwonlyargs]
+    if "chain_file" not in kw or "dhparams" not in kw or ccp[0].args.args:
+        raise ValueError("create_client_proxy_context: chain_file/dhparams are not keyword-only cache-key components")
+    if "context.load_verify_locations(str(chain_file), None)" not in ast.unparse(ccp[0]):
+        raise ValueError("create_client_proxy_context no longer loads chain_file into the context")
+
     t2 = ast.parse(open(os.path.join(repo, "mitmproxy", "addons", "tlsconfig.py")).read())
     cls = [n for n in t2.body if isinstance(n, ast.ClassDef) and n.name == "TlsConfig"]
     if len(cls) != 1:
@@ -101,6 +147,15 @@ def translate(repo: str) -> str:
                     if isinstance(sub, list) and sub and isinstance(sub[0], ast.stmt):
                         walk(sub, in_try)
 
+    tsc = [n for n in cls[0].body if isinstance(n, ast.FunctionDef) and n.name == "tls_start_client"]
+    if len(tsc) != 1:
+        raise ValueError("TlsConfig.tls_start_client not found exactly once")
+    tsrc = ast.unparse(tsc[0])
+    if "chain_file=entry.chain_file" not in tsrc or "dhparams=self.certstore.dhparams" not in tsrc \
+            or "entry = self.get_cert(tls_start.context)" not in tsrc \
+            or "tls_start.ssl_conn.use_certificate(entry.cert.to_cryptography())" not in tsrc:
+        raise ValueError("tls_start_client: chain_file / dhparams / leaf wiring changed")
+
     walk(gc[0].body, False)
     if len(found) != 1:
         raise ValueError("expected exactly one conversion of upstream_cert.cn in TlsConfig.get_cert")
@@ -110,4 +165,5 @@ def translate(repo: str) -> str:
             f"Definition VALIDITY_OFFSET : Z := ({consts['CERT_VALIDITY_OFFSET'] * 86400})%Z.\n"
             f"Definition CERT_EXPIRY : Z := ({consts['CERT_EXPIRY'] * 86400})%Z.\n"
             f"Definition CN_GUARDED : bool := {'true' if found[0] else 'false'}.\n"
-            f"Definition SAN_CRIT_BY_SUBJECT : bool := {'true' if crit_by_subject else 'false'}.\n")
+            f"Definition SAN_CRIT_BY_SUBJECT : bool := {'true' if crit_by_subject else 'false'}.\n"
+            f"Definition DH_SHARED : bool := {'true' if dh_shared else 'false'}.\n")
